@@ -430,6 +430,93 @@ def run_r3_r4(repo: Repo, res: Result) -> None:
 # --------------------------------------------------------------------------- R5
 
 
+def _deep_scalars(it: Interp, v, depth: int = 0) -> list:
+    """Scalars inside a value, also keys and values of dictionaries."""
+    out: list = []
+    if depth > 5:
+        return out
+    for sh in v:
+        if isinstance(sh, Ref) and sh.kind == "dict":
+            for k, x in list(it.cell(sh).entries):
+                out += _deep_scalars(it, k, depth + 1) + _deep_scalars(it, x, depth + 1)
+        elif isinstance(sh, Ref) and sh.kind == "coll":
+            out += _deep_scalars(it, it.elems(V(sh)), depth + 1)
+        elif isinstance(sh, Tup):
+            for x in sh.items:
+                out += _deep_scalars(it, x, depth + 1)
+        elif isinstance(sh, Sc):
+            out.append(sh)
+    return out
+
+
+_MUTATING = {"add", "update", "discard", "remove", "pop", "clear", "append", "extend", "insert", "difference_update", "intersection_update", "symmetric_difference_update", "setdefault", "popitem", "sort", "reverse", "appendleft", "extendleft", "popleft"}
+
+
+def _mutates_param(repo: Repo, fn: FuncInfo, pname: str, depth: int = 0):
+    """(function, node) of a statement of `fn` (or of a repository function it hands the value on to) that changes the object
+    bound to parameter `pname` in place - through the parameter or a local alias of it; None when there is none."""
+    if depth > 3 or pname not in fn.param_names:
+        return None
+    aliases = {pname}
+    nodes = list(own_nodes(fn.node))
+
+    def is_alias(e) -> bool:
+        if isinstance(e, ast.Name):
+            return e.id in aliases
+        if isinstance(e, ast.IfExp):
+            return is_alias(e.body) or is_alias(e.orelse)
+        if isinstance(e, ast.BoolOp):
+            return any(is_alias(x) for x in e.values)
+        if isinstance(e, ast.NamedExpr):
+            return is_alias(e.value)
+        return False
+
+    changed = True
+    while changed:
+        changed = False
+        for n in nodes:
+            tgt = None
+            if isinstance(n, ast.Assign) and len(n.targets) == 1 and isinstance(n.targets[0], ast.Name) and is_alias(n.value):
+                tgt = n.targets[0].id
+            elif isinstance(n, ast.AnnAssign) and isinstance(n.target, ast.Name) and n.value is not None and is_alias(n.value):
+                tgt = n.target.id
+            elif isinstance(n, ast.NamedExpr) and isinstance(n.target, ast.Name) and is_alias(n.value):
+                tgt = n.target.id
+            if tgt is not None and tgt not in aliases:
+                aliases.add(tgt)
+                changed = True
+    for n in nodes:
+        if isinstance(n, ast.Call) and isinstance(n.func, ast.Attribute) and n.func.attr in _MUTATING and is_alias(n.func.value):
+            return fn, n
+        if isinstance(n, ast.AugAssign) and isinstance(n.target, ast.Name) and n.target.id in aliases:
+            return fn, n
+        if isinstance(n, (ast.Subscript,)) and isinstance(n.ctx, (ast.Store, ast.Del)) and is_alias(n.value):
+            return fn, n
+    for n in nodes:
+        if not isinstance(n, ast.Call):
+            continue
+        callee = None
+        if isinstance(n.func, ast.Name):
+            fq = repo.resolve_name(fn.module, n.func)
+            if fq:
+                m, _, a = fq.rpartition(".")
+                om = repo.modules.get(m)
+                callee = om.functions.get(a) if om is not None else None
+        if callee is None or callee.fq == fn.fq:
+            continue
+        for i, a in enumerate(n.args):
+            if is_alias(a) and i < len(callee.param_names):
+                r = _mutates_param(repo, callee, callee.param_names[i], depth + 1)
+                if r is not None:
+                    return r
+        for k in n.keywords:
+            if k.arg and is_alias(k.value):
+                r = _mutates_param(repo, callee, k.arg, depth + 1)
+                if r is not None:
+                    return r
+    return None
+
+
 def run_r5(repo: Repo, res: Result) -> None:
     """The three graph queries of the evaluable: one independent search per key over the complete key set, stored under that key."""
     T = types_of(repo)
@@ -459,12 +546,34 @@ def run_r5(repo: Repo, res: Result) -> None:
             calls: list[dict] = []
 
             def make_intr(fn: FuncInfo, calls=calls):
+                batched = fn.node.returns is not None and any(x[0] == "b" and x[1] == "dict" for x in members(T.ann(fn.module, fn.node.returns)))
+
                 def intr(it: Interp, args, kwargs, node, fr):
                     allv = [*args, *kwargs.values()]
                     key_scalars = [sc for a in allv for sh in a for sc in ([sh] if isinstance(sh, Sc) else [])]
                     eids = frozenset().union(*[sc.eids for sc in key_scalars]) if key_scalars else frozenset()
                     srcs = frozenset().union(*[sc.srcs for sc in key_scalars]) if key_scalars else frozenset()
-                    calls.append({"fn": fn, "args": allv, "node": node, "fr": fr, "live": frozenset(it.active)})
+                    if not key_scalars:
+                        # no module of its own: a helper that answers for a whole collection (sub trees of all objects, ...)
+                        srcs = frozenset(x for a in allv for sc in _deep_scalars(it, a) for x in sc.srcs if not str(x).startswith("fld:"))
+                    pnames = [p for p in fn.param_names if not (fn.node.args.vararg and p == fn.node.args.vararg.arg)]
+                    calls.append({"fn": fn, "args": allv, "names": [*pnames[: len(args)], *([None] * max(0, len(args) - len(pnames))), *kwargs.keys()], "node": node, "fr": fr, "live": frozenset(it.active)})
+                    if batched:
+                        # a search that answers for many modules at once (`-> dict[module, list of imports]`): one list per
+                        # member of the collections / indexes it is given; whoever reads the dictionary by a key (or iterates its
+                        # items) gets the list of that key
+                        msrcs: set = set()
+                        for a in allv:
+                            for sh in a:
+                                if isinstance(sh, Ref) and sh.kind in ("coll", "dict"):
+                                    for sc in _deep_scalars(it, V(sh)):
+                                        msrcs |= {x for x in sc.srcs if x != "search" and not str(x).startswith("fld:")}
+                        if msrcs:
+                            member = Sc(srcs=frozenset(msrcs))
+                            el = Sc(srcs=srcs | frozenset(msrcs) | {"search", "batched"}, eids=eids)
+                            d = it.dict_((id(node), fr.inv, "search-dict"), it.site(fr, node))
+                            it.store_entry(d, V(member), V(it.coll((id(node), fr.inv, "search"), it.site(fr, node), V(Tup((V(el), V(el)), "search result")))))
+                            return V(d)
                     el = Sc(srcs=srcs | {"search"}, eids=eids)
                     return V(it.coll((id(node), fr.inv, "search"), it.site(fr, node), V(Tup((V(el), V(el)), "search result"))))
 
@@ -489,6 +598,7 @@ def run_r5(repo: Repo, res: Result) -> None:
             clean = not it.tops
             # (a) what every search receives
             extra: list[str] = []
+            unmodelled: list[str] = []
             partial: list[str] = []
             used: set = set()
             for c in calls:
@@ -509,18 +619,49 @@ def run_r5(repo: Repo, res: Result) -> None:
                                 extra.append(f"`{norm(c['node'], 80)}`: a scalar argument that is not an element of {sorted(pset)}")
                         elif isinstance(sh, Ref) and sh.kind == "coll":
                             els = it.elems(V(sh))
-                            scs = it.scalars(els)
+                            scs = _deep_scalars(it, els)
+                            plain = lambda sc: {x for x in sc.srcs if x != "search" and not str(x).startswith("fld:")}  # noqa: E731
                             if scs and all(isinstance(x, Sc) for x in els) and all(sc.srcs and sc.srcs <= pset and not (sc.eids & c["live"]) for sc in scs):
                                 for sc in scs:
                                     used |= sc.srcs
                                     partial += [f"{mk[2]} [{mk[1]}]" for mk in sc.marks if mk[0] == "part"]
+                                pname = c["names"][ai] if ai < len(c["names"]) else None
+                                mut = _mutates_param(repo, c["fn"], pname) if pname and c["live"] and not (it.cell(sh).born & c["live"]) else None
+                                if mut is not None:
+                                    extra.append(f"`{texts[ai] if ai < len(texts) else '?'}`, one object for the whole batch, which {c['fn'].name} changes (`{norm(mut[1], 60)}` at {mut[0].relpath}:{getattr(mut[1], 'lineno', 0)}) in `{norm(cn, 80)}`")
+                            elif scs and all(sc.srcs and plain(sc) and plain(sc) <= pset and not (sc.eids & c["live"]) for sc in scs):
+                                # computed once per query from the complete module sets (the sub trees of all objects, ...): the one
+                                # object is handed to every search of the batch - fine as long as no search changes it
+                                pname = c["names"][ai] if ai < len(c["names"]) else None
+                                mut = _mutates_param(repo, c["fn"], pname) if pname else None
+                                if mut is not None:
+                                    extra.append(f"`{texts[ai] if ai < len(texts) else '?'}`, a collection computed once for the whole batch, which {c['fn'].name} changes (`{norm(mut[1], 60)}` at {mut[0].relpath}:{getattr(mut[1], 'lineno', 0)}) in `{norm(cn, 80)}`")
+                                elif pname is None:
+                                    unmodelled.append(f"`{norm(cn, 80)}`: a collection computed once for the whole batch is passed to a parameter that could not be identified")
+                                else:
+                                    for sc in scs:
+                                        used |= sc.srcs & pset
+                                        partial += [f"{mk[2]} [{mk[1]}]" for mk in sc.marks if mk[0] == "part"]
                             else:
                                 extra.append(f"`{norm(c['node'], 80)}`: a collection that is not one of the complete module sets {sorted(pset)}")
+                        elif isinstance(sh, Ref) and sh.kind == "dict":
+                            # an index computed beforehand from the complete module sets (node -> modules it was requested for)
+                            scs = _deep_scalars(it, V(sh))
+                            if scs and all(sc.srcs and {x for x in sc.srcs if x != "search" and not str(x).startswith("fld:")} <= pset and not ((sc.eids - sc.gone) & c["live"]) for sc in scs):
+                                for sc in scs:
+                                    used |= sc.srcs & pset
+                                    partial += [f"{mk[2]} [{mk[1]}]" for mk in sc.marks if mk[0] == "part"]
+                                pname = c["names"][ai] if ai < len(c["names"]) else None
+                                mut = _mutates_param(repo, c["fn"], pname) if pname and c["live"] and not (it.cell(sh).born & c["live"]) else None
+                                if mut is not None:
+                                    extra.append(f"`{texts[ai] if ai < len(texts) else '?'}`, one dictionary for the whole batch, which {c['fn'].name} changes (`{norm(mut[1], 60)}` at {mut[0].relpath}:{getattr(mut[1], 'lineno', 0)}) in `{norm(cn, 80)}`")
+                            else:
+                                extra.append(f"`{norm(c['node'], 80)}`: a dictionary that is not computed from the complete module sets {sorted(pset)} alone")
                         else:
                             extra.append(f"`{norm(c['node'], 80)}`: an argument of kind {type(sh).__name__}{' (' + sh.why + ')' if isinstance(sh, Top) else ''}")
-            if not clean and (extra or sorted(pset - used)):
+            if (not clean and (extra or sorted(pset - used))) or (unmodelled and not extra):
                 n += 3
-                res.undecide("C03.R5", f"{head}::searches", f"the abstract evaluation met constructs it does not model ({'; '.join(it.tops[:2])})", where(impl, impl.node))
+                res.undecide("C03.R5", f"{head}::searches", f"the abstract evaluation met constructs it does not model ({'; '.join([*unmodelled, *it.tops][:2])})", where(impl, impl.node))
                 continue
             n += 1
             ok = not extra
@@ -546,7 +687,7 @@ def run_r5(repo: Repo, res: Result) -> None:
                         if not vs or not all("search" in sc.srcs for sc in vs):
                             bad_vals.append("the value stored for a key is not (only) the result of a graph search")
                             continue
-                        veids = frozenset().union(*[sc.eids for sc in vs])
+                        veids = frozenset().union(*[sc.eids | (sc.assoc if "batched" in sc.srcs else frozenset()) for sc in vs])
                         vsrcs = frozenset().union(*[sc.srcs & pset for sc in vs])
                         key_loops = {x for x in keids if x in it.loop_eids}
                         if vsrcs != ksrcs:
